@@ -58,8 +58,9 @@ def gen_cases(ctx):
     rng = ctx.rng
     quick = ctx.tier == "quick"
     cases = []          # (cfg, history, tag)
-    for c in (ctx.replay or {}).get("failures", []):
-        cc = c.get("case", {})
+    rp = ctx.replay or {}
+    for c in rp.get("failures", []) + rp.get("broken", []) + rp.get("theorem_or_correspondence", []):
+        cc = c.get("case") or {}
         if "cfg" in cc and "ops" in cc:
             cases.append((cc["cfg"], cc["ops"], "replay"))
     # the configuration space: live-only / non-live-only / both / none, map and LRU, capacities 1..3 and negative
